@@ -316,7 +316,25 @@ def oracle_c02(tables, seed, tier, deep):
                 pass
             viol.append({"site": site, "detail": "outputs differ at byte %d: %r vs %r" % (k, ta[max(0, k - 60):k + 60], tb[max(0, k - 60):k + 60]),
                          "cfg": c.s(), "cli_flags": c.cli(), "input": cs.text, "input2": cs2.text})
-    return result(viol, 2 * len(pairs), differing, "pairs (L, L') of grammar lines, L' = class-preserving re-assignment of every sensitive literal (length x1000, JSON metacharacters, equal/unequal); distinct_nontrivial = pairs whose inputs really differ",
+    # whole streams: the outputs for [L, L] and [L, L'] (and [L, X, L] / [L, X, L']) must be the same bytes - the output may not
+    # even reveal WHETHER two entries carry the same secrets
+    sops, smeta = [], []
+    for i, ((cs, c), (cs2, _)) in enumerate(zip(pairs[:60], twins[:60])):
+        if "\n" in cs.text or "\n" in cs2.text or cs.text == cs2.text or c.eager or r1[i] != r2[i]:
+            continue          # (a pair whose single lines already differ is reported above, under its own site)
+        L, L2 = cs.text.encode("utf-8"), cs2.text.encode("utf-8")
+        X = b'{"c":"NETWORK","msg":"between","attr":{"k":1}}'
+        for tag, da, db in (("dup", L + b"\n" + L + b"\n", L + b"\n" + L2 + b"\n"), ("sep", L + b"\n" + X + b"\n" + L + b"\n", L + b"\n" + X + b"\n" + L2 + b"\n")):
+            sops.append(("a%d%s" % (i, tag), ["stream", c.s(), "-", hx(da)]))
+            sops.append(("b%d%s" % (i, tag), ["stream", c.s(), "-", hx(db)]))
+            smeta.append(("%d%s" % (i, tag), c, da, db))
+    sres = go_exec(sops)
+    for key, c, da, db in smeta:
+        a, b = sres.get("a" + key, "noanswer"), sres.get("b" + key, "noanswer")
+        if a != b:
+            viol.append({"site": "interference:stream", "detail": "a stream holding an entry twice and the same stream with the secrets of the second copy re-assigned give different output (%d vs %d bytes)" % (len(a), len(b)),
+                         "cfg": c.s(), "cli_flags": c.cli(), "input_hex": hx(da), "input2_hex": hx(db)})
+    return result(viol, 2 * len(pairs) + len(sops), differing, "pairs (L, L') of grammar lines, L' = class-preserving re-assignment of every sensitive literal (length x1000, JSON metacharacters, equal/unequal); distinct_nontrivial = pairs whose inputs really differ",
                   {}, [{"L": pairs[0][0].text[:300], "L2": twins[0][0].text[:300]}] if pairs else [])
 
 
